@@ -93,6 +93,9 @@ KnownOf(q, got) ==
   \cup (IF Cfg.ifh /\ q.op \in {"mkdir", "symlink", "create"} /\ q.uid # 0 THEN {"S15-ifh-nonroot"} ELSE {})
   \cup (IF q.op = "create" /\ HasRef(S, q.p) /\ IsDir(S, IdOf(S, q.p)) /\ q.nk = "plain" /\ q.name \in Names(S, IdOf(S, q.p))
            /\ IsDir(S, S.dent[IdOf(S, q.p)][q.name]) /\ "EXCL" \notin ToSetOf(q.fl) THEN {"create-on-directory"} ELSE {})
+  \cup (IF q.op = "create" /\ HasRef(S, q.p) /\ IsDir(S, IdOf(S, q.p)) /\ q.nk = "plain" /\ q.name \in Names(S, IdOf(S, q.p))
+           /\ IsReg(S, S.dent[IdOf(S, q.p)][q.name]) /\ SizeOf(S.ino[S.dent[IdOf(S, q.p)][q.name]]) > 0
+           /\ {"TRUNC"} \subseteq ToSetOf(q.fl) /\ "EXCL" \notin ToSetOf(q.fl) /\ got.st = "OK" THEN {"create-trunc-stale-attr"} ELSE {})
 \* `cur`: size of the addressed regular file before the request (for the sealing class)
 CurOf(q) ==
   IF "h" \in DOMAIN q /\ q.h >= 0 /\ HasHandle(S, q.h) THEN SizeOf(S.ino[IdOf(S, HKey(q.h))])
@@ -190,7 +193,8 @@ PtCreate(ps, nm, fl, uid) ==
                  IF ~o.ok THEN \* the reference taken by the lookup stays with the server (nothing is returned to the client)
                       Fin(q, Res(ErrOf(o), NoRet), Close(l.T, NSlot), l.itab, htab, l.nexti, nexth, TRUE, wantH, 0, 0)
                  ELSE LET T3 == IF wantH THEN o.S ELSE Close(o.S, HKey(HSlot)) IN
-                      Fin(q, Res("OK", Attr(T3, l.id)), T3, l.itab, IF wantH THEN (nexth :> [ino |-> l.ino, flags |-> fl]) @@ htab ELSE htab,
+                      \* the entry (attributes) was built by do_lookup BEFORE open_inode: stale after a truncating open
+                      Fin(q, Res("OK", Attr(l.T, l.id)), T3, l.itab, IF wantH THEN (nexth :> [ino |-> l.ino, flags |-> fl]) @@ htab ELSE htab,
                           l.nexti, IF wantH THEN nexth + 1 ELSE nexth, TRUE, wantH, l.ino, nexth)
 PtLink(ns, ps, nm) ==
   LET q == [op |-> "link", n |-> ns, p |-> ps, name |-> nm.s, nk |-> nm.k, uid |-> 0, gid |-> 0] IN
